@@ -34,7 +34,7 @@ let select_icmp op is_signed =
   | IsGreater -> if is_signed then PSgt else PUgt
   | IsGE -> if is_signed then PSge else PUge
   | IsLess -> if is_signed then PSlt else PUlt
-  | IsLE -> PSle
+  | IsLE -> if is_signed then PSle else PUle
 
 (** val select_cast :
     prim -> prim -> bool -> bool -> bool -> coq_Z -> coq_Z -> cast option **)
